@@ -64,7 +64,7 @@ class Check:
 
     # ---- helpers ---------------------------------------------------------------------
     def exe(self, target):
-        return vbuild.build(target, quiet=True)
+        return vbuild.build(target, quiet=True) if target else None
 
     def replay_cmd(self, job, path):
         return job["replay"](self.exe(job["target"]), self.prop, path)
